@@ -47,7 +47,7 @@ Qed.
 (* safety                                                                                 *)
 
 Lemma sweep_items_seized : forall g app items id,
-  In id (fst (sweep_items g app items)) ->
+  In id (sweep_items g app items) ->
   exists p, In p items /\ p_id p = id /\ eff_verdict g app p = VSeize.
 Proof.
   induction items as [|p rest IH]; intros id H; cbn in H; [contradiction|].
@@ -56,12 +56,8 @@ Proof.
     + exists p. split; [left; reflexivity|]. split; [reflexivity|exact E].
     + destruct (IH id H) as (q & Hq & Hid & Hv). exists q. split; [right; exact Hq|]. split; assumption.
   - destruct (IH id H) as (q & Hq & Hid & Hv). exists q. split; [right; exact Hq|]. split; assumption.
-  - destruct (wrapped g).
-    + destruct (IH id H) as (q & Hq & Hid & Hv). exists q. split; [right; exact Hq|]. split; assumption.
-    + cbn in H. contradiction.
-  - destruct (wrapped g).
-    + destruct (IH id H) as (q & Hq & Hid & Hv). exists q. split; [right; exact Hq|]. split; assumption.
-    + cbn in H. contradiction.
+  - destruct (IH id H) as (q & Hq & Hid & Hv). exists q. split; [right; exact Hq|]. split; assumption.
+  - destruct (IH id H) as (q & Hq & Hid & Hv). exists q. split; [right; exact Hq|]. split; assumption.
 Qed.
 
 Lemma in_firstn {A} : forall n (l : list A) x, In x (firstn n l) -> In x l.
@@ -84,14 +80,14 @@ Proof. intros g app H. destruct g; cbn in H; try discriminate. destruct app; dis
 
 (* every id a sweep seizes belongs to a position of the list whose own verdict is VSeize, and
    (V1) whose app is the app being swept *)
-Lemma sweep_core_seized : forall g app l cap len off batch sz l' o ab id,
-  sweep_core g app l cap len off batch = Ok (sz, l', o, ab) -> In id sz ->
+Lemma sweep_core_seized : forall g app l cap len off batch sz l' o id,
+  sweep_core g app l cap len off batch = Ok (sz, l', o) -> In id sz ->
   exists p, In p l /\ p_id p = id /\ p_v p = VSeize /\ (g = GV1 -> p_app p = app).
 Proof.
-  intros g app l cap len off batch sz l' o ab id H Hin. unfold sweep_core in H.
+  intros g app l cap len off batch sz l' o id H Hin. unfold sweep_core in H.
   destruct (go_slice l cap _ _) as [items|] eqn:Eg; [|discriminate].
-  assert (Hs : In id (fst (sweep_items g app items))).
-  { destruct (snd (sweep_items g app items)); try discriminate; injection H as <- _ _ _; exact Hin. }
+  assert (Hs : In id (sweep_items g app items)).
+  { injection H as <- _ _; exact Hin. }
   destruct (sweep_items_seized _ _ _ _ Hs) as (p & Hp & Hid & Hv).
   destruct (go_slice_in _ _ _ _ _ _ Eg Hp) as [Hl|Hz].
   - exists p. split; [exact Hl|]. split; [exact Hid|].
@@ -102,10 +98,10 @@ Qed.
 
 Lemma sweep_one_inv : forall g app l cap counter off batch r,
   sweep_one g app l cap counter off batch = Ok r ->
-  sweep_core g app l cap (int_of_u64 counter) off batch = Ok (r_seized r, r_list r, r_off r, r_aborted r).
+  sweep_core g app l cap (int_of_u64 counter) off batch = Ok (r_seized r, r_list r, r_off r).
 Proof.
   intros g app l cap counter off batch r H. unfold sweep_one in H.
-  destruct (sweep_core g app l cap (int_of_u64 counter) off batch) as [[[[sz l'] o] ab]| |]; try discriminate.
+  destruct (sweep_core g app l cap (int_of_u64 counter) off batch) as [[[sz l'] o]| |]; try discriminate.
   injection H as <-. reflexivity.
 Qed.
 
@@ -127,8 +123,7 @@ Lemma sweep_one_list_incl : forall app l cap counter off batch r p,
 Proof.
   intros app l cap counter off batch r p H Hin. apply sweep_one_inv in H. unfold sweep_core in H.
   destruct (go_slice l cap _ _) as [items|]; [|discriminate].
-  destruct (snd (sweep_items GV1 app items)); try discriminate; injection H as _ H _ _; rewrite <- H in Hin;
-    exact (after_seize_incl GV1 _ _ _ eq_refl Hin).
+  injection H as _ H _; rewrite <- H in Hin; exact (after_seize_incl GV1 _ _ _ eq_refl Hin).
 Qed.
 
 Lemma sweep_v1_seized : forall capf batch apps st acc ids st' id,
@@ -335,7 +330,7 @@ Lemma zlen_map {A B} (f : A -> B) l : zlen (map f l) = zlen l.
 Proof. unfold zlen. rewrite map_length. reflexivity. Qed.
 
 (* ---- what one block does to the id list ---- *)
-Lemma sweep_items_lpos : forall u w, sweep_items GV2 0 (map (lpos u) w) = (filter u w, Done).
+Lemma sweep_items_lpos : forall u w, sweep_items GV2 0 (map (lpos u) w) = filter u w.
 Proof.
   induction w as [|a w IH]; [reflexivity|].
   cbn [map sweep_items eff_verdict lpos p_v p_id filter]. destruct (u a); rewrite IH; reflexivity.
@@ -366,7 +361,7 @@ Proof.
   replace ((0 <=? fst se) && (fst se <=? snd se) && (snd se <=? zlen ids)) with true by lia.
   rewrite zlen_map. replace (zlen ids - zlen ids) with 0 by lia. cbn [Z.to_nat repeat].
   rewrite app_nil_r. rewrite skipn_map. rewrite firstn_map.
-  rewrite sweep_items_lpos. cbn [fst snd]. rewrite map_id_after_seize. reflexivity.
+  rewrite sweep_items_lpos. rewrite map_id_after_seize. reflexivity.
 Qed.
 
 (* ---- indices ---- *)
@@ -694,7 +689,7 @@ Qed.
 
 (* the block of the schedule IS the keepers' sweep (V2 LiquidateVaults; V1 the sweep of one app over
    that app's positions) with counter = capacity = length, as long as the length fits an int64 *)
-Lemma sweep_items_lpos_v1 : forall u w, sweep_items GV1 0 (map (lpos u) w) = (filter u w, Done).
+Lemma sweep_items_lpos_v1 : forall u w, sweep_items GV1 0 (map (lpos u) w) = filter u w.
 Proof.
   induction w as [|a w IH]; [reflexivity|].
   cbn [map sweep_items eff_verdict lpos p_v p_id p_app filter]. rewrite Z.eqb_refl.
@@ -705,7 +700,7 @@ Lemma sweep_core_lpos : forall g ids off b u, (g = GV1 \/ g = GV2) ->
   sweep_core g 0 (map (lpos u) ids) (zlen ids) (zlen ids) off b =
     Ok (filter u (window_of ids off b),
         after_seize g (filter u (window_of ids off b)) (map (lpos u) ids),
-        snd (sweep_window (zlen ids) off b), false).
+        snd (sweep_window (zlen ids) off b)).
 Proof.
   intros g ids off b u Hg. unfold sweep_core, window_of.
   destruct (sweep_window_ok_lem (zlen ids) off b (zlen_nonneg ids)) as ((H1 & H2) & H3).
@@ -719,14 +714,13 @@ Qed.
 
 Lemma block_is_sweep_one : forall g ids off b u, (g = GV1 \/ g = GV2) -> zlen ids < two63 ->
   exists r, sweep_one g 0 (map (lpos u) ids) (zlen ids) (zlen ids) off b = Ok r /\
-            block_ids ids off b u = (r_seized r, map p_id (r_list r), r_off r) /\
-            r_aborted r = false.
+            block_ids ids off b u = (r_seized r, map p_id (r_list r), r_off r).
 Proof.
   intros g ids off b u Hg Hlt.
   assert (Hint : int_of_u64 (zlen ids) = zlen ids).
   { unfold int_of_u64. pose proof (zlen_nonneg ids). replace (zlen ids >=? two63) with false by lia. reflexivity. }
   unfold sweep_one. rewrite Hint, (sweep_core_lpos g ids off b u Hg).
-  eexists. split; [reflexivity|]. cbn [r_seized r_list r_off r_aborted]. split; [|reflexivity].
+  eexists. split; [reflexivity|]. cbn [r_seized r_list r_off].
   rewrite block_ids_eq. f_equal. f_equal.
   assert (after_seize g (filter u (window_of ids off b)) (map (lpos u) ids) =
           after_seize GV2 (filter u (window_of ids off b)) (map (lpos u) ids)) as ->
@@ -760,30 +754,315 @@ Proof.
   split; [repeat constructor|]. vm_compute. repeat split; auto; try (intros H; intuition discriminate).
 Qed.
 
-(* V2 as deployed (vault sweep + borrow sweep sharing offset key 0): 2 vaults, batch 1, the second
-   one unsafe with every liveness hypothesis met: the hook is a fixed point, nothing is ever seized *)
-Definition v2_starved : v2_state := mkV2 [mkPos 1 0 VKeep; mkPos 2 0 VSeize] 2 0 [].
+(* ------------------------------------------------------------------------------------ *)
+(* liquidationsV2 after the repairs C09-F2 (own offset key) and C09-F3 (per-item wrap)    *)
 
-Lemma live_v2_refuted : forall k, run_v2 (fun n => n) 1 k v2_starved = Ok v2_starved.
+Definition is_seize (v : verdict) : bool := match v with VSeize => true | _ => false end.
+Definition bseizes (vf : Z -> verdict) (liq : list Z) (id : Z) : bool :=
+  negb (mem_z id liq) && is_seize (vf id).
+
+(* the wrapped loop visits EVERY item of the window, whatever the verdicts of the others *)
+Lemma sweep_items_bpos : forall vf liq w,
+  sweep_items GB2 0 (map (bpos vf liq) w) = filter (bseizes vf liq) w.
 Proof.
-  induction k as [|k IH]; [reflexivity|]. cbn [run_v2].
-  replace (sweep_v2 (fun n => n) 1 v2_starved) with (Ok ([] : list Z, [] : list Z, v2_starved, false))
-    by (vm_compute; reflexivity).
-  exact IH.
+  induction w as [|a w IH]; [reflexivity|].
+  cbn [map sweep_items eff_verdict bpos p_v p_id filter]. unfold bseizes at 1.
+  destruct (mem_z a liq); cbn [negb andb]; [exact IH|].
+  destruct (vf a); cbn [is_seize]; rewrite IH; reflexivity.
 Qed.
 
-(* V2 borrow sweep: one erroring borrow in front of an unsafe one: the loop aborts before it, forever *)
-Definition v2_borrow_starved : v2_state := mkV2 [] 0 0 [mkPos 1 0 VErr; mkPos 2 0 VSeize].
+Lemma mem_z_app : forall x l1 l2, mem_z x (l1 ++ l2) = mem_z x l1 || mem_z x l2.
+Proof. intros. unfold mem_z. apply existsb_app. Qed.
 
-Lemma live_borrow_refuted : forall k, run_v2 (fun n => n) 5 k v2_borrow_starved = Ok v2_borrow_starved.
+Lemma after_seize_bpos : forall vf liq sz ids,
+  after_seize GB2 sz (map (bpos vf liq) ids) = map (bpos vf (liq ++ sz)) ids.
 Proof.
-  induction k as [|k IH]; [reflexivity|]. cbn [run_v2].
-  replace (sweep_v2 (fun n => n) 5 v2_borrow_starved) with (Ok ([] : list Z, [] : list Z, v2_borrow_starved, true))
-    by (vm_compute; reflexivity).
-  exact IH.
+  intros vf liq sz ids. unfold after_seize. cbn [removes]. rewrite map_map. apply map_ext. intro a.
+  unfold bpos. cbn [p_id p_app]. rewrite mem_z_app.
+  destruct (mem_z a sz); [rewrite orb_true_r; reflexivity|rewrite orb_false_r; reflexivity].
 Qed.
 
-(* with the loop wrapped per item (as the V1 borrow sweep is) the same list is served at once *)
-Lemma live_borrow_wrapped_ok :
-  exists r, sweep_one GB1 0 [mkPos 1 0 VErr; mkPos 2 0 VSeize] 2 2 0 5 = Ok r /\ r_seized r = [2].
-Proof. eexists. split; [vm_compute; reflexivity|reflexivity]. Qed.
+Lemma sweep_core_bpos : forall ids liq off b vf,
+  sweep_core GB2 0 (map (bpos vf liq) ids) (zlen ids) (zlen ids) off b =
+    Ok (filter (bseizes vf liq) (window_of ids off b),
+        map (bpos vf (liq ++ filter (bseizes vf liq) (window_of ids off b))) ids,
+        snd (sweep_window (zlen ids) off b)).
+Proof.
+  intros ids liq off b vf. unfold sweep_core, window_of.
+  destruct (sweep_window_ok_lem (zlen ids) off b (zlen_nonneg ids)) as ((H1 & H2) & H3).
+  set (se := sweep_window (zlen ids) off b) in *.
+  unfold go_slice.
+  replace ((0 <=? fst se) && (fst se <=? snd se) && (snd se <=? zlen ids)) with true by lia.
+  rewrite zlen_map. replace (zlen ids - zlen ids) with 0 by lia. cbn [Z.to_nat repeat].
+  rewrite app_nil_r, skipn_map, firstn_map, sweep_items_bpos, after_seize_bpos. reflexivity.
+Qed.
+
+Lemma bblock_ids_eq : forall ids liq off b vf,
+  bblock_ids ids liq off b vf =
+    (filter (bseizes vf liq) (window_of ids off b), snd (sweep_window (zlen ids) off b)).
+Proof. intros. unfold bblock_ids. rewrite sweep_core_bpos. reflexivity. Qed.
+
+Lemma int_of_u64_zlen {A} (l : list A) : zlen l < two63 -> int_of_u64 (zlen l) = zlen l.
+Proof. intro H. unfold int_of_u64. pose proof (zlen_nonneg l). replace (zlen l >=? two63) with false by lia. reflexivity. Qed.
+
+(* the block of the borrow schedule IS the keepers' V2 borrow sweep (list sliced by its own
+   length); afterwards the list holds the same ids, the seized ones marked liquidated *)
+Lemma bblock_is_sweep_one : forall ids liq off b vf, zlen ids < two63 ->
+  exists r, sweep_one GB2 0 (map (bpos vf liq) ids) (zlen ids) (zlen ids) off b = Ok r /\
+            bblock_ids ids liq off b vf = (r_seized r, r_off r) /\
+            r_list r = map (bpos vf (liq ++ r_seized r)) ids.
+Proof.
+  intros ids liq off b vf Hlt. unfold sweep_one. rewrite (int_of_u64_zlen ids Hlt), sweep_core_bpos.
+  eexists. split; [reflexivity|]. cbn [r_seized r_off r_list]. split; [apply bblock_ids_eq|reflexivity].
+Qed.
+
+(* ---- the V2 hook: vault sweep under key 0, borrow sweep under key 1, independent ---- *)
+
+(* the borrow sweep of the hook never fails and never panics, whatever the borrows' verdicts *)
+Lemma sweep_one_borrow_total : forall l off b, zlen l < two63 ->
+  exists r, sweep_one GB2 0 l (zlen l) (zlen l) off b = Ok r /\
+            r_off r = snd (sweep_window (zlen l) off b) /\ map p_id (r_list r) = map p_id l.
+Proof.
+  intros l off b Hlt. unfold sweep_one. rewrite (int_of_u64_zlen l Hlt). unfold sweep_core.
+  destruct (sweep_window_ok_lem (zlen l) off b (zlen_nonneg l)) as ((H1 & H2) & H3).
+  set (se := sweep_window (zlen l) off b) in *.
+  unfold go_slice.
+  replace ((0 <=? fst se) && (fst se <=? snd se) && (snd se <=? zlen l)) with true by lia.
+  eexists. split; [reflexivity|]. cbn [r_off r_list]. split; [reflexivity|].
+  unfold after_seize. cbn [removes]. rewrite map_map. apply map_ext. intro p.
+  destruct (mem_z (p_id p) _); reflexivity.
+Qed.
+
+(* the vault half of the V2 hook is the block of the vault schedule, whatever the borrows and the
+   borrow offset are: the liveness theorems for the single-offset sweep apply to liquidationsV2 *)
+Lemma v2_hook_vault_block : forall ids off0 b u bl off1, zlen ids < two63 -> zlen bl < two63 ->
+  exists sb st', sweep_v2 (fun n => n) b (mkV2 (map (lpos u) ids) (zlen ids) off0 bl off1) =
+                   Ok (fst (fst (block_ids ids off0 b u)), sb, st') /\
+    map p_id (t_list st') = snd (fst (block_ids ids off0 b u)) /\
+    t_off0 st' = snd (block_ids ids off0 b u) /\
+    map p_id (t_borrows st') = map p_id bl /\ t_off1 st' = snd (sweep_window (zlen bl) off1 b).
+Proof.
+  intros ids off0 b u bl off1 Hi Hb.
+  destruct (block_is_sweep_one GV2 ids off0 b u (or_intror eq_refl) Hi) as (r1 & E1 & B1).
+  destruct (sweep_one_borrow_total bl off1 b Hb) as (r2 & E2 & O2 & L2).
+  unfold sweep_v2. cbn [t_list t_counter t_off0 t_borrows t_off1]. rewrite zlen_map, E1, E2.
+  eexists. eexists. split; [rewrite B1; reflexivity|]. cbn [t_list t_off0 t_borrows t_off1].
+  rewrite B1. cbn [fst snd]. repeat split; assumption.
+Qed.
+
+(* the borrow half of the V2 hook is the block of the borrow schedule, whatever the vault sweep
+   seizes (as long as the vault sweep itself returns: C15's slice classes) *)
+Lemma v2_hook_borrow_block : forall capf vl counter off0 b r1 ids liq off1 vf, zlen ids < two63 ->
+  sweep_one GV2 0 vl (capf (zlen vl)) counter off0 b = Ok r1 ->
+  exists st', sweep_v2 capf b (mkV2 vl counter off0 (map (bpos vf liq) ids) off1) =
+                Ok (r_seized r1, fst (bblock_ids ids liq off1 b vf), st') /\
+    t_borrows st' = map (bpos vf (liq ++ fst (bblock_ids ids liq off1 b vf))) ids /\
+    t_off1 st' = snd (bblock_ids ids liq off1 b vf) /\
+    t_list st' = r_list r1 /\ t_off0 st' = r_off r1.
+Proof.
+  intros capf vl counter off0 b r1 ids liq off1 vf Hi E1.
+  destruct (bblock_is_sweep_one ids liq off1 b vf Hi) as (r2 & E2 & B2 & L2).
+  unfold sweep_v2. cbn [t_list t_counter t_off0 t_borrows t_off1]. rewrite E1, zlen_map, E2.
+  eexists. split; [rewrite B2; reflexivity|]. cbn [t_list t_off0 t_borrows t_off1].
+  rewrite B2. cbn [fst snd]. repeat split; try reflexivity. exact L2.
+Qed.
+
+(* ---- liveness of the V2 borrow sweep ---- *)
+Definition bst (st : bstate) : list Z * Z := (bs_ids st, bs_off st).
+
+Definition bev_ok (x : Z) (st : bstate) (e : bevent) : Prop :=
+  match e with
+  | BBlock vf => vf x = VSeize
+  | BClose id => id <> x
+  | BCreate id => ~ In id (bs_ids st) /\ id <> x
+  end.
+
+Fixpoint brun_ok (b x : Z) (st : bstate) (evs : list bevent) : Prop :=
+  match evs with
+  | [] => True
+  | e :: r => bev_ok x st e /\ brun_ok b x (bev_step b st e) r
+  end.
+
+Lemma bev_step_inv b st e x : 0 < b -> st_inv (bst st) -> bev_ok x st e -> st_inv (bst (bev_step b st e)).
+Proof.
+  intros Hb (Hnd & Ho) Hok. destruct st as [ids off liq]. cbn [bst bs_ids bs_off fst snd] in *.
+  destruct e as [vf|id|id]; unfold st_inv; cbn [bev_step bst bs_ids bs_off bs_liq fst snd].
+  - rewrite bblock_ids_eq. cbn [fst snd]. split; [exact Hnd|].
+    pose proof (sweep_window_ok_lem (zlen ids) off b (zlen_nonneg ids)). lia.
+  - split; [apply nodup_filter; exact Hnd|exact Ho].
+  - split; [|exact Ho]. destruct Hok as (Hni & _). apply nodup_snoc; auto.
+Qed.
+
+(* x stays in the list: nobody but x's owner removes it *)
+Lemma bev_step_in b st e x : bev_ok x st e -> In x (bs_ids st) -> In x (bs_ids (bev_step b st e)).
+Proof.
+  intros Hok Hin. destruct st as [ids off liq]. destruct e as [vf|id|id]; cbn [bev_step bs_ids] in *.
+  - exact Hin.
+  - apply filter_In. split; [exact Hin|]. cbn in Hok. destruct (x =? id) eqn:E; [|reflexivity]. exfalso. apply Hok. lia.
+  - apply in_or_app. left; exact Hin.
+Qed.
+
+(* once liquidated, always liquidated *)
+Lemma bliq_mono_step b st e x : In x (bs_liq st) -> In x (bs_liq (bev_step b st e)).
+Proof. intro H. destruct e; cbn [bev_step bs_liq]; auto. apply in_or_app. left; exact H. Qed.
+
+Lemma bliq_mono b x : forall evs st, In x (bs_liq st) -> In x (bs_liq (fold_left (bev_step b) evs st)).
+Proof. induction evs as [|e r IH]; intros st H; [exact H|]. cbn [fold_left]. apply IH. apply bliq_mono_step. exact H. Qed.
+
+(* a block in which x is unsafe and inside the window liquidates x *)
+Lemma bblock_seizes b st vf x : In x (bs_ids st) -> vf x = VSeize ->
+  fst (sweep_window (zlen (bs_ids st)) (bs_off st) b) <= idx x (bs_ids st) < snd (sweep_window (zlen (bs_ids st)) (bs_off st) b) ->
+  In x (bs_liq (bev_step b st (BBlock vf))).
+Proof.
+  intros Hx Hv Hr. destruct st as [ids off liq]. cbn [bev_step bs_ids bs_off bs_liq] in *.
+  rewrite bblock_ids_eq. cbn [fst].
+  destruct (mem_z x liq) eqn:Em.
+  - apply in_or_app. left. apply mem_z_in. exact Em.
+  - apply in_or_app. right. apply filter_In. split; [apply in_window_of; assumption|].
+    unfold bseizes. rewrite Em, Hv. reflexivity.
+Qed.
+
+(* the step lemma: the potential pays for every block x survives unliquidated *)
+Lemma bpot_step b st e x c : 0 < b -> st_inv (bst st) -> bev_ok x st e -> is_bcreate e <= c ->
+  In x (bs_ids st) -> ~ In x (bs_liq (bev_step b st e)) ->
+  pot b x (bst (bev_step b st e)) (c - is_bcreate e) + is_bblock e <= pot b x (bst st) c.
+Proof.
+  intros Hb Hinv Hok Hc Hx Hnl.
+  pose proof (bev_step_in b st e x Hok Hx) as Hx'.
+  destruct e as [vf|id|id]; cbn [is_bcreate is_bblock] in *.
+  - (* a block: the list is unchanged, x was outside the window *)
+    assert (Hnw : ~ (fst (sweep_window (zlen (bs_ids st)) (bs_off st) b) <= idx x (bs_ids st)
+                     < snd (sweep_window (zlen (bs_ids st)) (bs_off st) b))).
+    { intro Hr. apply Hnl. apply bblock_seizes; assumption. }
+    destruct Hinv as (_ & Ho). destruct st as [ids off liq]. unfold bst in *. cbn [bs_ids bs_off bs_liq fst snd bev_step] in *.
+    rewrite bblock_ids_eq. cbn [fst snd]. replace (c - 0) with c by lia.
+    unfold pot, bst. cbn [fst snd bs_ids bs_off].
+    pose proof (pot_T_quiet (zlen ids) (idx x ids) off b Hb (idx_bounds x ids Hx) Ho Hnw). lia.
+  - (* repayment / deletion of another borrow: the vault schedule's close *)
+    pose proof (pot_step b (bst st) (EClose id) x c Hb Hinv Hok Hc) as H.
+    destruct st as [ids off liq]. unfold bst in *. cbn [bs_ids bs_off bev_step ev_step fst snd is_create is_block] in *.
+    apply H. exact Hx'.
+  - (* a new borrow: appended *)
+    pose proof (pot_step b (bst st) (ECreate id) x c Hb Hinv Hok Hc) as H.
+    destruct st as [ids off liq]. unfold bst in *. cbn [bs_ids bs_off bev_step ev_step fst snd is_create is_block] in *.
+    apply H. exact Hx'.
+Qed.
+
+Lemma n_bblocks_cons e r : n_bblocks (e :: r) = is_bblock e + n_bblocks r.
+Proof. reflexivity. Qed.
+Lemma n_bcreates_cons e r : n_bcreates (e :: r) = is_bcreate e + n_bcreates r.
+Proof. reflexivity. Qed.
+Lemma is_bcreate_nonneg e : 0 <= is_bcreate e. Proof. destruct e; cbn; lia. Qed.
+Lemma n_bcreates_nonneg evs : 0 <= n_bcreates evs.
+Proof. induction evs as [|e r IH]; [cbn; lia|]. rewrite n_bcreates_cons. pose proof (is_bcreate_nonneg e). lia. Qed.
+
+(* main induction: while x is not liquidated, the number of blocks run is at most the potential *)
+Lemma blive_main b x : 0 < b -> forall evs st c,
+  st_inv (bst st) -> In x (bs_ids st) -> brun_ok b x st evs -> n_bcreates evs <= c ->
+  ~ In x (bs_liq (fold_left (bev_step b) evs st)) ->
+  n_bblocks evs <= pot b x (bst st) c.
+Proof.
+  intros Hb. induction evs as [|e r IH]; intros st c Hinv Hx Hok Hc Hnl.
+  - replace (n_bblocks []) with 0 by reflexivity. replace (n_bcreates []) with 0 in Hc by reflexivity.
+    destruct Hinv as (_ & Ho). apply pot_nonneg; auto.
+  - cbn [fold_left] in Hnl. destruct Hok as (Hok1 & Hok2). rewrite n_bcreates_cons in Hc.
+    pose proof (is_bcreate_nonneg e). pose proof (n_bcreates_nonneg r).
+    pose proof (IH (bev_step b st e) (c - is_bcreate e) (bev_step_inv b st e x Hb Hinv Hok1)
+                   (bev_step_in b st e x Hok1 Hx) Hok2 ltac:(lia) Hnl) as Hle.
+    assert (Hnl1 : ~ In x (bs_liq (bev_step b st e))).
+    { intro H1. apply Hnl. apply bliq_mono. exact H1. }
+    pose proof (bpot_step b st e x c Hb Hinv Hok1 ltac:(lia) Hx Hnl1). rewrite n_bblocks_cons. lia.
+Qed.
+
+(* V2 borrow liveness, interleaved: repayments / deletions of OTHER borrows and new borrows between
+   the blocks, ANY verdict (error and panic included) for every other borrow in every block; x above
+   its threshold and liquidatable in every block.  After live_bound blocks x is liquidated. *)
+Theorem blive_interleaved : forall b x ids off liq evs c,
+  1 <= b -> 0 <= off -> NoDup ids -> In x ids ->
+  brun_ok b x (mkB ids off liq) evs -> n_bcreates evs <= c ->
+  live_bound (zlen ids + c) c b <= n_bblocks evs ->
+  In x (bs_liq (fold_left (bev_step b) evs (mkB ids off liq))).
+Proof.
+  intros b x ids off liq evs c Hb Ho Hnd Hx Hok Hc Hn.
+  destruct (in_dec Z.eq_dec x (bs_liq (fold_left (bev_step b) evs (mkB ids off liq)))) as [H|H]; [exact H|exfalso].
+  pose proof (blive_main b x ltac:(lia) evs (mkB ids off liq) c (conj Hnd Ho) Hx Hok Hc H) as Hle.
+  pose proof (n_bcreates_nonneg evs).
+  pose proof (pot_le_bound b x ids off c ltac:(lia) ltac:(lia) Hx Ho). unfold bst in Hle. cbn [bs_ids bs_off] in Hle. lia.
+Qed.
+
+(* quiet case: only blocks.  The list does not shrink under seizures (a liquidated borrow stays
+   in it), so every block that misses x brings the window one batch closer: (n-1)/b + 2 blocks,
+   which is within the property's "two full sweeps" = 2*ceil(n/b) *)
+Definition bblocks_of (vfs : list (Z -> verdict)) : list bevent := map BBlock vfs.
+
+Lemma blive_quiet_main b x : 0 < b -> forall vfs st,
+  0 <= bs_off st -> In x (bs_ids st) -> Forall (fun vf => vf x = VSeize) vfs ->
+  ~ In x (bs_liq (fold_left (bev_step b) (bblocks_of vfs) st)) ->
+  zlen vfs <= pot_T (zlen (bs_ids st)) (idx x (bs_ids st)) (bs_off st) b.
+Proof.
+  intros Hb. induction vfs as [|vf r IH]; intros st Ho Hx Hall Hnl.
+  - pose proof (pot_T_bounds _ _ (bs_off st) b Hb (idx_bounds x _ Hx) Ho). unfold zlen at 1. cbn [length]. lia.
+  - inversion Hall as [|? ? Hv Hr]; subst. unfold bblocks_of in Hnl. cbn [map fold_left] in Hnl. fold (bblocks_of r) in Hnl.
+    assert (Hnl1 : ~ In x (bs_liq (bev_step b st (BBlock vf)))).
+    { intro H1. apply Hnl. apply bliq_mono. exact H1. }
+    assert (Hnw : ~ (fst (sweep_window (zlen (bs_ids st)) (bs_off st) b) <= idx x (bs_ids st)
+                     < snd (sweep_window (zlen (bs_ids st)) (bs_off st) b))).
+    { intro Hrg. apply Hnl1. apply bblock_seizes; assumption. }
+    pose proof (pot_T_quiet _ _ (bs_off st) b Hb (idx_bounds x _ Hx) Ho Hnw) as Hq.
+    pose proof (sweep_window_ok_lem (zlen (bs_ids st)) (bs_off st) b (zlen_nonneg _)) as Hw.
+    specialize (IH (bev_step b st (BBlock vf))).
+    destruct st as [ids off liq]. cbn [bev_step bs_ids bs_off bs_liq] in *.
+    rewrite bblock_ids_eq in *. cbn [fst snd] in *.
+    specialize (IH ltac:(lia) Hx Hr Hnl). rewrite zlen_cons. lia.
+Qed.
+
+Theorem blive_quiet : forall b x ids off liq vfs,
+  1 <= b -> 0 <= off -> In x ids ->
+  Forall (fun vf => vf x = VSeize) vfs ->
+  live_R (zlen ids) b <= zlen vfs ->
+  In x (bs_liq (fold_left (bev_step b) (bblocks_of vfs) (mkB ids off liq))).
+Proof.
+  intros b x ids off liq vfs Hb Ho Hx Hall Hn.
+  destruct (in_dec Z.eq_dec x (bs_liq (fold_left (bev_step b) (bblocks_of vfs) (mkB ids off liq)))) as [H|H]; [exact H|exfalso].
+  pose proof (blive_quiet_main b x ltac:(lia) vfs (mkB ids off liq) Ho Hx Hall H) as Hle. cbn [bs_ids bs_off] in Hle.
+  pose proof (pot_T_bounds (zlen ids) (idx x ids) off b ltac:(lia) (idx_bounds x ids Hx) Ho). lia.
+Qed.
+
+Lemma live_R_le_two_sweeps n b : 1 <= n -> 1 <= b -> live_R n b <= two_sweeps n b.
+Proof.
+  intros Hn Hb. unfold live_R, two_sweeps.
+  replace (n + b - 1) with (n - 1 + 1 * b) by lia. rewrite Z.div_add by lia.
+  pose proof (Z.div_pos (n - 1) b). lia.
+Qed.
+
+(* ---- regression witnesses of the repaired findings ---- *)
+(* C09-F2: 2 vaults, batch 1, the second unsafe, no borrows: the hook used to be a fixed point
+   (the borrow sweep reset the vault offset every block); now the offset advances and the second
+   block seizes vault 2 *)
+Definition v2_starved : v2_state := mkV2 [mkPos 1 0 VKeep; mkPos 2 0 VSeize] 2 0 [] 0.
+
+Lemma v2_starved_served :
+  run_v2 (fun n => n) 1 2 v2_starved = Ok (mkV2 [mkPos 1 0 VKeep] 1 2 [] 0).
+Proof. vm_compute. reflexivity. Qed.
+
+(* C09-F3: an erroring (or panicking) borrow in front of an unsafe one, batch 5: the loop used to
+   return at borrow 1 in every block; now borrow 2 is liquidated in the first block *)
+Definition v2_borrow_starved : v2_state := mkV2 [] 0 0 [mkPos 1 0 VErr; mkPos 2 0 VSeize] 0.
+
+Lemma v2_borrow_starved_served :
+  sweep_v2 (fun n => n) 5 v2_borrow_starved =
+    Ok ([], [2], mkV2 [] 0 0 [mkPos 1 0 VErr; mkPos 2 0 VKeep] 2) /\
+  sweep_v2 (fun n => n) 5 (mkV2 [] 0 0 [mkPos 1 0 VPanic; mkPos 2 0 VSeize] 0) =
+    Ok ([], [2], mkV2 [] 0 0 [mkPos 1 0 VPanic; mkPos 2 0 VKeep] 2).
+Proof. vm_compute. split; reflexivity. Qed.
+
+(* the property's literal bound holds for the V2 borrow sweep in the quiet case *)
+Theorem blive_quiet_two_sweeps : forall b x ids off liq vfs,
+  1 <= b -> 0 <= off -> In x ids ->
+  Forall (fun vf => vf x = VSeize) vfs ->
+  two_sweeps (zlen ids) b <= zlen vfs ->
+  In x (bs_liq (fold_left (bev_step b) (bblocks_of vfs) (mkB ids off liq))).
+Proof.
+  intros b x ids off liq vfs Hb Ho Hx Hall Hn. apply blive_quiet; auto.
+  pose proof (idx_bounds x ids Hx). pose proof (live_R_le_two_sweeps (zlen ids) b ltac:(lia) Hb). lia.
+Qed.
